@@ -537,8 +537,14 @@ class Namespace(Evaluatable[Options]):
         for name in self._members:
             self[name].validate(options)
 
-        section = Option[Options](self._key, {})(options)
-        for name in section:
+        # Only the names matter here: the values of entries nobody declared are never
+        # read, so they are not resolved either (evaluate() and keys() ignore them)
+        section = (
+            get_dotted_key(self._key, options)
+            if dotted_key_exists(self._key, options)
+            else {}
+        )
+        for name in section if isinstance(section, Mapping) else ():
             if name not in self._members:
                 warnings.warn(
                     f"Unrecognized option {name!r} in namespace {self._key}",
